@@ -596,7 +596,7 @@ def annex_d(ctx, handlers):
         sel_line = sel_calls[0].lineno
         for c in P.calls_in(u):
             emits = G.is_ll_send(P, u, c) or (isinstance(c.func, ast.Attribute) and c.func.attr == "gn_area_cbf_forwarding")
-            if not emits or c.lineno < sel_line:
+            if not emits:
                 continue
             st = fl.state_at(c)
             alg, mentions = _selection_outcome(ctx, fi, st.facts)
